@@ -297,6 +297,13 @@ Definition get_component_files (w : world) (suffix : option str) : res (list ent
   bind (map_res (app_entries (w_root w) suf) (app_sources w)) (fun es2 =>
   Ok (somes es1 ++ concat es2))))).
 
+(* ---------- autodiscovery.py: autodiscover() ----------
+   modules = get_component_files(".py"); return _import_modules([entry.dot_path for entry in modules], map_module):
+   EVERY returned entry is imported, in order, with no further filter; the result is the list of imported names
+   (importlib.import_module raising is outside this function: see py_find for which file a name loads). *)
+Definition autodiscover (w : world) : res (list str) :=
+  bind (get_component_files w (Some PY)) (fun es => Ok (map fst es)).
+
 (* ---------- S-model: which file does `import a.b.c` load, searching one root directory ----------
    FileFinder, per name: a directory with __init__.py / __init__.pyc (regular package) wins over
    <name>.py / <name>.pyc, which wins over a directory without __init__ (namespace package, no
@@ -394,13 +401,18 @@ Definition check_find (c : find_case) : bool :=
 
 (* one generated sandbox with all the queries made against it:
    get_component_files(suffix), get_component_dirs(include_apps), import lookups (root dir, name),
-   and the known-finding trigger as decided by the harness on relative paths of the tree *)
+   the known-finding trigger as decided by the harness on relative paths of the tree, and - when the sandbox was
+   really imported and no import raised - the list autodiscover() returned *)
 Definition world_case :=
   (world * list (option str * res (list entry)) * list (bool * res (list path))
-   * list (path * str * option path) * list (path * bool))%type.
+   * list (path * str * option path) * list (path * bool) * option (list str))%type.
 Definition check_world (c : world_case) : bool :=
-  let '(w, fq, dq, iq, tq) := c in
+  let '(w, fq, dq, iq, tq, aq) := c in
   forallb (fun q => check_files (w, fst q, snd q)) fq &&
   forallb (fun q => check_dirs (w, fst q, snd q)) dq &&
   forallb (fun q => let '(r, name, obs) := q in check_find (tree_at (w_root w) r, name, obs)) iq &&
-  forallb (fun q => Bool.eqb (dotted_trigger (fst q)) (snd q)) tq.
+  forallb (fun q => Bool.eqb (dotted_trigger (fst q)) (snd q)) tq &&
+  match aq with
+  | None => true
+  | Some names => res_eqb (multiset_eqb str_eqb) (autodiscover w) (Ok names)
+  end.
